@@ -11,6 +11,8 @@ Decided:
   XOR   the 0x73 key is applied on both the read and the write path
 Not decided: checksum value for a concrete record; behaviour over all byte values; canonical round trip (needs execution).
 """
+import re
+
 from .. import wire as W
 from ..mir import const_int
 from ..sym import Explorer, is_const, show, walk
@@ -328,6 +330,45 @@ def run(ctx):
                     if inner[0] == "rv" and inner[1]["k"] == "discr" and inner[1]["p"]["ty"] == "gearsets::GearSlotType":
                         ok = not d_.ops
         ctx.ob("SLOTPOS", "writer-indexes-by-discriminant", ok, "convert_to_slots stores each slot at position `slot_type as usize`", wsb.file, wsb.line)
+    # ---- SETPOS: gear set number i of the list is record number i of the 100 in the file, on both sides: the writer
+    # stores entry i of the list at position i (the index comes from enumerating the *unfiltered* list, or the list is
+    # walked by a counter that also indexes the table); the reader maps record by record without dropping or reordering
+    DROPS = ("flatten", "filter", "filter_map", "flat_map", "skip", "skip_while", "take_while", "step_by", "rev", "retain", "dedup", "sort", "sort_by", "sort_by_key", "reverse", "swap", "rotate_left", "rotate_right", "chain")
+    from ..prov import derive, index_of
+
+    def last_of(t_):
+        return re.sub(r"::<[^<>]*>$", "", t_.get("res") or "").split("::")[-1]
+
+    wgb = prog.body("gearsets::convert_to_gearsets")
+    if not wgb:
+        ctx.fail_closed("SETPOS", "gearsets::convert_to_gearsets not found")
+    else:
+        ok, detail = False, "no indexed store into the table found"
+        for wb_ in prog.deep_bodies("gearsets::convert_to_gearsets"):
+            ix = index_of(wb_)
+            for _bi, t_ in wb_.calls():
+                if not ((t_.get("res") or "").endswith("IndexMut<I>>::index_mut") and len(t_["args"]) == 2):
+                    continue
+                d_ = derive(ix, t_["args"][1])
+                lasts = {c_.split("::")[-1] for c_ in d_.calls}
+                dropped = sorted(lasts & set(DROPS))
+                from_enum = "enumerate" in lasts
+                detail = f"the table index derives from {sorted(lasts)[:6]} with operators {sorted(d_.ops)[:4]}"
+                ok = from_enum and not dropped and not (d_.ops - {"Lt", "Ge", "Le", "Gt", "Eq", "Ne"})
+        if not ok and detail.startswith("no indexed store"):
+            # table and list walked in lock step: zip of the two unfiltered iterators
+            all_l = {last_of(t_) for b_ in prog.deep_bodies("gearsets::convert_to_gearsets") for _bi, t_ in b_.calls()}
+            if "zip" in all_l and not (all_l & set(DROPS)):
+                ok, detail = True, "table and list are zipped without any filtering adaptor"
+            elif "zip" in all_l:
+                detail = f"table and list are zipped, but through {sorted(all_l & set(DROPS))}"
+        ctx.ob("SETPOS", "writer-same-position", ok, f"convert_to_gearsets: {detail}; entry i of the list must be stored at position i (index of the unfiltered enumeration)", wgb.file, wgb.line, sample=True)
+    rgb = prog.body("gearsets::convert_from_gearsets")
+    if not rgb:
+        ctx.fail_closed("SETPOS", "gearsets::convert_from_gearsets not found")
+    else:
+        used = sorted({last_of(t_) for b_ in prog.deep_bodies("gearsets::convert_from_gearsets") for _bi, t_ in b_.calls()} & set(DROPS))
+        ctx.ob("SETPOS", "reader-record-by-record", not used, f"convert_from_gearsets uses position-changing adaptors {used}; record i must become entry i (empty records stay as None)", rgb.file, rgb.line)
 
     # ---- XOR on both paths
     for fn in ("gearsets::GearSets::from_existing", "gearsets::GearSets::write_to_buffer"):
